@@ -749,7 +749,7 @@ def gen_queue_prog(rng):
         bodies = _spawn_join(rng, kids, flagset=(F_PF, F_PF, F_PF, 0))
     else:
         bodies = gen_core_prog(rng, maxb=12, flagset=(0, 0, F_PF), reap=('JN',), yields=(0, 1, 2, 3, 4))
-    init = [(4, 0, rng.choice((1, 2)))] if rng.random() < 0.4 else []
+    init = [(4, 0, rng.choice((1, 2, 3, 3)))] if rng.random() < 0.5 else []
     return {'init': init, 'bodies': bodies}
 
 
